@@ -2834,6 +2834,9 @@ def number2expansion(dtype, q, length=None, functional=False, base=None):
 
 def multiword2mpf(ctx, mw):
     """Transform multiword to mpf instance."""
+    if not mw:
+        # mpf2multiword represents zero as an empty list
+        return ctx.mpf(0)
     s = float2mpf(ctx, mw[-1])
     for i in reversed(range(len(mw) - 1)):
         s = s + float2mpf(ctx, mw[i])
